@@ -50,11 +50,25 @@ JudgeC15(e) ==
 
 Judge(e) == CASE e.prop = "C03" -> JudgeC03(e) [] e.prop = "C15" -> JudgeC15(e) [] OTHER -> "unknown-prop"
 
+\* spec growth (a NOTE): when the specification predicts a refusal, the exception class is the one UbxBuild!ConstructClass names
+ClassNote(e) ==
+    IF ~("exc" \in DOMAIN e) \/ e.exc = "" \/ e.out # "ubx" THEN ""
+    \* (two reasons for a refusal at once - a bad value for a discriminator / count, or a bad value in a message that cannot be built from
+    \* keywords anyway: which one is reported first is left open)
+    ELSE IF e.prop = "C15" /\ (e.structural = 1 \/ Build(e.m, e.cls, e.id, e.pbf = 1, SelectSeq(e.kw, LAMBDA x : x[1] # e.tgt[1])).err # "") THEN ""
+    ELSE LET b == IF e.prop = "C15" THEN Build(e.m, e.cls, e.id, e.pbf = 1, Append(SelectSeq(e.kw, LAMBDA x : x[1] # e.tgt[1]), e.tgt))
+                  ELSE Build(e.m, e.cls, e.id, e.pbf = 1, e.kw)
+             c == ConstructClass(b)
+         IN IF c \in {"any", "message"} \/ c = e.exc THEN "" ELSE "EXT:construct-class:expected-" \o c \o "-got-" \o e.exc
+
 Init == tid \in 1..Len(Traces) /\ verdict = "pending"
 Next == /\ verdict = "pending"
-        /\ LET v == Judge(Traces[tid]) IN
+        /\ LET v == Judge(Traces[tid])
+               x == IF v \in {"ok", "triv"} THEN ClassNote(Traces[tid]) ELSE ""
+           IN
              /\ verdict' = v
              /\ (v # "ok" => PrintT("V " \o ToString(tid) \o " " \o v))
+             /\ (x # "" => PrintT("E " \o ToString(tid) \o " " \o x))
         /\ UNCHANGED tid
 Spec == Init /\ [][Next]_<<tid, verdict>>
 =============================================================================
